@@ -108,44 +108,23 @@ class ImageBatch(DataTensor):
         grids = [g for g in (getattr(arg, "_grid", None) for arg in args) if g is not None]
         if not grids:
             return None
-        if kwargs.get("dim", 0) == 0:
-            if func == torch.cat:
-                return [g for grid in grids for g in grid]
-            if func in (torch.split, Tensor.split):
-                grids = grids[0]
-                split_grids = []
-                split_size_or_sections = args[1]
-                if isinstance(split_size_or_sections, int):
-                    for start in range(0, len(grids), split_size_or_sections):
-                        split_grids.append(grids[start : start + split_size_or_sections])
-                elif isinstance(split_size_or_sections, Sequence):
-                    start = 0
-                    for num in split_size_or_sections:
-                        split_grids.append(grids[start : start + num])
-                        start += num
-                return split_grids
-            if func in (torch.split_with_sizes, Tensor.split_with_sizes):
-                grids = grids[0]
-                split_grids = []
-                split_sizes = args[1]
-                start = 0
-                for num in split_sizes:
-                    split_grids.append(grids[start : start + num])
-                    start += num
-                return split_grids
-            if func in (torch.tensor_split, Tensor.tensor_split):
-                grids = grids[0]
-                split_grids = []
-                tensor_indices_or_sections = args[1]
-                if isinstance(tensor_indices_or_sections, int):
-                    for start in range(0, len(grids), tensor_indices_or_sections):
-                        split_grids.append(grids[start : start + tensor_indices_or_sections])
-                elif isinstance(tensor_indices_or_sections, Sequence):
-                    indices = list(tensor_indices_or_sections)
-                    for start, end in zip([0] + indices, indices + [len(grids)]):
-                        split_grids.append(grids[start:end])
-                return split_grids
+        if func == torch.cat and kwargs.get("dim", 0) == 0:
+            return [g for grid in grids for g in grid]
         return grids[0]
+
+    @staticmethod
+    def _torch_function_split_grids(
+        data: Sequence[Tensor], grid: Optional[Sequence[Grid]]
+    ) -> Sequence[Optional[Sequence[Grid]]]:
+        r"""Get spatial sampling grids of the chunks returned by a split function."""
+        if grid is None or sum(chunk.shape[0] for chunk in data) != len(grid):
+            return [grid] * len(data)  # not split along batch dimension
+        start = 0
+        split_grids = []
+        for chunk in data:
+            split_grids.append(grid[start : start + chunk.shape[0]])
+            start += chunk.shape[0]
+        return split_grids
 
     @classmethod
     def _torch_function_result(cls, func, data, grid: Optional[Sequence[Grid]]) -> Any:
@@ -187,15 +166,7 @@ class ImageBatch(DataTensor):
         ):
             if type(data) not in (tuple, list):
                 raise AssertionError(f"expected split 'data' to be tuple or list, got {type(data)}")
-            if type(grid) not in (tuple, list):
-                raise AssertionError(f"expected split 'grid' to be tuple or list, got {type(grid)}")
-            if len(grid) != len(data):
-                raise AssertionError(
-                    f"expected 'grid' tuple length to be equal batch size, but {len(grid)} != {len(data)}"
-                )
-            assert all(isinstance(d, Tensor) for d in data)
-            assert all(isinstance(g, (tuple, list)) for g in grid)
-            assert all(len(d) == len(g) for d, g in zip(data, grid))
+            grid = cls._torch_function_split_grids(data, grid)
             return tuple(cls._torch_function_result(func, d, g) for d, g in zip(data, grid))
         return cls._torch_function_result(func, data, grid)
 
